@@ -293,4 +293,51 @@ func c25(r *Run) {
 		es2 := findEffects(f, "store alloc(complit).ID = (*).GetID(p1)")
 		r.check(len(es) == 1 && len(es2) == 1, "C25.R4", "ExpiryHeap.Add:entry=(id,expiry)", w.rel(f.Pos()), "", fmt.Sprintf("ExpiryHeap.Add does not key the entry by the item's ID and prioritise by its expiry (%d/%d)", len(es), len(es2)))
 	}
+	// R5: heap order is maintained only by container/heap: nobody else calls the raw interface methods or writes the item slice
+	r.rule("C25.R5", "K3", "innerHeap's Swap/Push/Pop are called only through container/heap; its item slice and lookup map are written only by those methods", 4)
+	const pkgHeap = H + "/internal/heap"
+	raw := map[string]bool{"(*" + pkgHeap + ".innerHeap).Swap": true, "(*" + pkgHeap + ".innerHeap).Push": true, "(*" + pkgHeap + ".innerHeap).Pop": true}
+	nDirect := 0
+	for _, fn := range w.srcFns {
+		for _, c := range callsTo(fn, func(n string) bool { return raw[n] }) {
+			nDirect++
+			r.bad("C25.R5", short(fnName(fn))+":direct-"+short(calleeName(c)), r.at(w, c), "the heap's raw "+short(calleeName(c))+" is called outside container/heap: the moved element is not sifted, the minimum is no longer at the root")
+		}
+	}
+	if nDirect == 0 {
+		r.ok("C25.R5", "no-direct-raw-heap-calls", pkgHeap, "no call of innerHeap.Swap/Push/Pop in the module")
+	}
+	for _, nm := range []string{"Push", "Pop", "Remove"} {
+		f := r.fn(w, "C25.R5", "(*"+pkgHeap+".Heap)."+nm)
+		if f == nil {
+			continue
+		}
+		cs := callsTo(f, func(n string) bool { return n == "container/heap."+nm })
+		okk := len(cs) == 1
+		if okk {
+			// every non-nil result comes from the container/heap call
+			for _, o := range returnOutcomes(f) {
+				if len(o.Vals) == 1 && term(o.Vals[0]) != "nil" && !derivesFrom(o.Vals[0], func(v ssa.Value) bool { return v == ssa.Value(cs[0].Value()) }) {
+					okk = false
+				}
+			}
+		}
+		r.check(okk, "C25.R5", "Heap."+nm+":through-container/heap", w.rel(f.Pos()), "container/heap."+nm, "Heap."+nm+" does not go through container/heap."+nm+" on every path that changes the heap")
+	}
+	for _, fn := range w.FnsInPkg(pkgHeap) {
+		name := fnName(fn)
+		if raw[name] || name == pkgHeap+".newInnerHeap" {
+			continue
+		}
+		for _, fld := range []string{"items", "lookup"} {
+			if n := len(fieldStores(fn, pkgHeap+".innerHeap", fld)); n > 0 {
+				r.bad("C25.R5", short(name)+":writes-"+fld, w.rel(fn.Pos()), "innerHeap."+fld+" is written outside Swap/Push/Pop")
+			}
+		}
+		for _, e := range effectsOf(fn) {
+			if strings.HasPrefix(e.Str, "mapupdate p0.lookup[") || strings.HasPrefix(e.Str, "call builtin.delete(p0.lookup") || strings.HasPrefix(e.Str, "mapupdate p0.ih.lookup[") {
+				r.bad("C25.R5", short(name)+":writes-lookup", r.at(w, e.Ins), "innerHeap.lookup is written outside Swap/Push/Pop")
+			}
+		}
+	}
 }
